@@ -51,7 +51,7 @@ MANIFEST = {
             'no Lean model of the codecs or of the lz4/xz/lzip/zstd/bzip2 framing. Reading with all filters enabled a '
             'payload that some bidder claims is the documented exception and is only run for crashes. Open findings '
             '(known_findings.json): zstd long=28..31 cannot be read back (reader window limit); uuencode/b64encode '
-            'name with a byte outside 0x20..0x7e is not recognised. Eight defects were repaired in the repo (fix: commits).',
+            'name with a byte outside 0x20..0x7e is not recognised. Nine defects were repaired in the repo (fix: commits), the last one the truncated-stream finding of C08 (uu_truncated_is_reported).',
     'technique': 'Lean 4 proof (induction over write chunkings and read windows; invariants of the hold buffer and of '
                  'the carried partial line; abstract streaming-codec refinement with a ranking function) + model/C '
                  'differential correspondence',
@@ -281,6 +281,17 @@ class Flt(Engine):
             pl, _ = payload(rng, tier, big_ok=False)
             yield Case('gzhdr', ['gz %s %s %s %d' % (''.join('%02x' % b for b in h), pl,
                                  ''.join('%02x' % rng.randrange(256) for _ in range(8)), rng.choice([1, 7, 512, 10240]))])
+        # 4d. truncated uu / base64 streams (cut anywhere: inside the trailer, at a line border, inside a
+        #     line, inside the "begin" line): the reader must not deliver a proper prefix as a complete stream
+        for i in range(60 if tier == 'quick' else 800):
+            st = rng.choice([['uuencode'], ['b64encode'], ['uuencode'], ['b64encode'], ['uuencode', 'b64encode'], ['b64encode', 'uuencode']])
+            n = rng.choice([0, 1, 44, 45, 46, 57, 58, 90, 200, 1000, 5000, 70000])
+            cut = rng.choice(['-%d' % rng.choice([0, 1, 2, 3, 4, 5, 6, 7, 8, 9]), '-%d' % rng.randrange(10, 200),
+                              '-%d' % (rng.choice([62, 77]) * rng.randrange(1, 4) + rng.choice([5, 6])),
+                              'p%d' % rng.choice([0, 10, 100, 500, 900, 990, 999]),
+                              'l%d' % rng.choice([0, 1, 1, 2, 3, 10]), 'l%d' % rng.randrange(1, 1 + max(1, n // 45))])
+            yield Case('trunc', ['tr %s - gen:%s:%d:%d %s %d' % (','.join(st), rng.choice(['rnd', 'text', 'zero']), n,
+                                 rng.randrange(9999), cut, rng.choice([1, 7, 62, 512, 10240]))])
         # 5. payloads that start with a compression signature (documented exception):
         #    exactly-those-filters must still round-trip; "all" is run only for crashes (mode allx)
         sig = list(SIGS)
@@ -296,6 +307,13 @@ class Flt(Engine):
     def oracle(self, case, impl):
         for op, o in zip(case.ops, impl):
             w = op.split()
+            if w[0] == 'tr':
+                if o.startswith('!'):
+                    return 'crash or sanitizer abort [truncated %s cut=%s]: %s' % (w[1], w[4], o)
+                m = re.search(r' filters=(-?\d+) st=ok .*full=0', o)
+                if m and int(m.group(1)) >= 1:
+                    return 'truncated stream read as complete [stack=%s payload=%s cut=%s]: %s' % (w[1], w[3], w[4], o[:120])
+                continue
             if w[0] == 'gz':
                 if o.startswith('!'):
                     return 'crash or sanitizer abort [gzip member %s]: %s' % (w[1][:40], o)
@@ -336,6 +354,11 @@ class Flt(Engine):
         for c, im in zip(cases, impl):
             for op, o in zip(c.ops, im):
                 w = op.split()
+                if w[0] == 'tr':
+                    st['kinds']['trunc'] = st['kinds'].get('trunc', 0) + 1
+                    st.setdefault('truncated', {'fatal': 0, 'complete': 0, 'not_recognised': 0})
+                    st['truncated']['fatal' if ' st=fatal' in o else 'complete' if ' full=1' in o else 'not_recognised'] += 1
+                    continue
                 if w[0] == 'gz':
                     st['kinds']['gzhdr'] = st['kinds'].get('gzhdr', 0) + 1
                     st['eq1'] += ' eq=1' in o
